@@ -281,7 +281,11 @@ func (s *BaseNodeService) executeOperation(operation *types.Operation) error {
 		}
 	} else {
 		//for now only ReinitDKG can have the OperationProcessed event
-		dkgID := operation.DKGIdentifier
+		if fsm.State(storedOperation.Type) != types.ReinitDKG {
+			return fmt.Errorf("operation %s of type %s cannot be answered with the %s event", storedOperation.ID, storedOperation.Type, operation.Event)
+		}
+		// the answer concerns the round the operation was issued for, whatever the submitted copy says
+		dkgID := storedOperation.DKGIdentifier
 		fsm, err := s.fsmService.GetFSMInstance(string(dkgID), false)
 		if err != nil {
 			return fmt.Errorf("failed to get fsm instance during operation processing: %w", err)
@@ -295,7 +299,7 @@ func (s *BaseNodeService) executeOperation(operation *types.Operation) error {
 			return fmt.Errorf("failed to dump fsm instance during operation processing: %w", err)
 		}
 
-		err = s.fsmService.SaveFSM(operation.DKGIdentifier, dump)
+		err = s.fsmService.SaveFSM(dkgID, dump)
 		if err != nil {
 			return fmt.Errorf("failed to save fsm dump during operation processing: %w", err)
 		}
